@@ -309,13 +309,16 @@ def _cfgs(i, all8):
 
 
 def _sweep_shard(item):
-    idx, nshards, stride, all8 = item
+    idx, nshards, stride, all8 = item[:4]
+    seed = item[4] if len(item) > 4 else 0
     part = new_part()
     for i, case in enumerate(all_cases()):
         if i % nshards != idx:
             continue
         if stride > 1 and (i // nshards) % stride != 0 and len(case[4]) == 2:
-            continue   # quick tier: every size-1 set, a stride of the size-2 sets
+            continue   # quick tier: a stride of the size-2 sets ...
+        if stride > 1 and len(case[4]) < 2 and (i // nshards + seed) % 2 != 0:
+            continue   # ... and every other cell of the size-0/1 sets (which half: by the seed)
         if len(part["violations"]) >= 3:
             break
         check_case(part, case, _cfgs(i, all8))
@@ -351,7 +354,7 @@ def run(report):
     quick = report.tier == "quick"
     report.rule = RULE
     ns = env.NPROC * 4
-    items = [(_sweep_shard, (i, ns, 9 if quick else 1, not quick)) for i in range(ns)]
+    items = [(_sweep_shard, (i, ns, 20 if quick else 1, not quick, report.seed)) for i in range(ns)]
     items += [(_drawn_shard, (env.sub_seed(report.seed, "C12", i), 40 if quick else 1500)) for i in range(env.NPROC)]
     # host dimension: a seeded stride of the skeleton product as whole programs (stdout, canonical
     # globals incl. the class itself) under the other host interpreters
@@ -380,7 +383,7 @@ def run(report):
         report.absorb(part)
     report.exhaustive = not quick
     report.notes.append("thorough: the skeleton product x member sets of size <= 2 is enumerated completely "
-                        "(exhaustive:true); quick: all size-0/1 sets and every 9th size-2 set")
+                        "(exhaustive:true); quick: half of the size-0/1 sets (which half: by the seed) and every 20th size-2 set")
     for s in sorted(open_switches('C12')):
         report.exclusions.setdefault(s, 0)
     report.assumptions += ["class-creation hooks that look at the namespace (__prepare__, metaclass __new__ reading the dict, "
